@@ -24,6 +24,8 @@ TypePartners == Partners \o << Txt(<<49, 47, 49, 47>> \o [i \in 1..20 |-> 57]), 
                                Txt(<<49, 50, 58>> \o [i \in 1..20 |-> 57]),          \* 12:99999999999999999999
                                Txt(<<49, 101, 57, 57, 57>>) >>                        \* 1e999
 NT == Len(TypePartners)
+\* the information functions report the type without altering it: text that SPELLS a logical value or a number is text
+InfoPartners == Partners \o << Txt(TRUEcodes), Txt(<<102, 97, 108, 115, 101>>), Txt(<<49, 101, 51>>) >>     \* TRUE  false  1e3
 
 C(f, a) == [f |-> f, args |-> a]
 
@@ -51,7 +53,7 @@ InitCase ==
   \/ \E f \in {"AND", "OR"}, e \in Codes, pos \in 1..3, tv \in BOOLEAN :
         case = C(f, <<Arr(<<[i \in 1..3 |-> IF i = pos THEN Err(e) ELSE Bool(tv)]>>)>>)
   \/ \E f \in {"ISERROR", "ISERR", "ISNA"}, e \in Codes : case = C(f, <<Err(e)>>)
-  \/ \E f \in {"ISERROR", "ISERR", "ISNA", "ISNUMBER", "ISTEXT", "ISBLANK"}, i \in 1..NP : case = C(f, <<Partners[i]>>)
+  \/ \E f \in {"ISERROR", "ISERR", "ISNA", "ISNUMBER", "ISTEXT", "ISBLANK"}, i \in 1..Len(InfoPartners) : case = C(f, <<InfoPartners[i]>>)
   \/ case = C("NA", <<>>)
 
 Pending == [t |-> "pending"]
